@@ -15,7 +15,7 @@ import json
 import random
 from pathlib import Path
 
-from .common import Ctx, hx
+from .common import Ctx, hx, unhx
 
 DRIVERS = ["drv_cmd"]
 EVIDENCE = dict(
@@ -319,12 +319,145 @@ def check_case(ctx: Ctx, c: dict):
         if r != "ok":
             ctx.violation("emitted escape code does not parse back to the command's fields", c,
                           {"reason": r, "emitted": full[:200].hex(), "spec_fields": d.ask(f"spec_fields {tok}")}, key="c06-" + r)
+    elif k == "more":
+        _check_more(ctx, d, c)
     elif k == "derive":
         _check_derive(ctx, d, c)
     elif k == "mutate":
         _check_mutate(ctx, d, c)
     else:
         raise ValueError(k)
+
+
+NO_LIMIT = 2**32 - 1
+
+
+def _check_more(ctx, d, c):
+    """An inline transmission as it reaches the command stream through send() / split(), with the `more` field in each of
+    its three states (unset, explicitly False, True) however it got onto the command (constructor, attribute assignment,
+    clone_with), for payloads of one and of several chunks.  The emitted bytes are a SEQUENCE of escapes; an independent
+    reader of the protocol joins a command flagged m=1 with the continuation commands after it up to the first one not
+    flagged m=1, and must recover exactly the fields that were set (other than m itself) and the exact payload, as ONE
+    transmission, left open iff the caller set more=True.  (Sizes of the chunks are C05's claim and are not judged here.)"""
+    gc = gcmod()
+    desc = c["cmd"]
+    f = desc.get("f") or {}
+    more = f.get("more")
+    how = c.get("how", "ctor")
+    data = data_bytes(desc.get("data"))
+    tok = tokens(desc, data)
+    skind = c.get("stream", "bytes")
+    dobj = data
+    if skind == "bytesio":
+        dobj = io.BytesIO(data)
+        dobj.seek(len(data) // 2)
+    try:
+        if how == "ctor":
+            obj = build(desc, data_override=dobj)
+        else:
+            rest = {"type": "T", "f": {kk: vv for kk, vv in f.items() if kk != "more"}, "data": desc.get("data")}
+            if how == "attr":            # the field is assigned after construction (once through the other value first)
+                obj = build(with_fields(rest, {"more": c.get("first")}), data_override=dobj)
+                obj.more = more
+            elif how == "clone":         # clone_with(more=...) of a command that had the field unset / set differently
+                obj = build(with_fields(rest, {"more": c.get("first")}), data_override=dobj).clone_with(more=more)
+            else:
+                raise ValueError(how)
+        raised = False
+        if c["via"] == "send":
+            mx = c.get("max")
+            out = io.BytesIO()
+            seen = []
+            try:
+                obj.send(out, gc.GraphicsCommand.DEFAULT_TEMPLATE, max_size=mx, callback=lambda x: seen.append(x.to_bytes(gc.GraphicsCommand.DEFAULT_TEMPLATE)))
+            except ValueError:
+                raised = True
+            stream = out.getvalue()
+            m = d.ask(f"send 0 {'none' if mx is None else mx} {tok}")
+            ctx.eq("send(transmit) raises ValueError", c, raised, m == "err")
+            nchunks = 0 if m == "err" else len(m.split(" "))
+            if not raised and m != "err":
+                ctx.eq("send(transmit) command stream", c, hx(stream), "".join(m.split(" ")))
+                ctx.eq("send(transmit) callback sequence", c, [hx(x) for x in seen], m.split(" "))
+            elif raised and stream:
+                ctx.mismatch("send(transmit) wrote something before raising", c, hx(stream[:60]), "-")
+        elif c["via"] == "split":
+            parts = list(obj.split(max_payload_size=c["n"]))
+            m = d.ask(f"split {c['n']} {tok}").split(" ")
+            ctx.eq("split(transmit)", c, [hx(p.content_to_bytes()) for p in parts], m)
+            stream = b"".join(p.to_bytes(gc.GraphicsCommand.DEFAULT_TEMPLATE) for p in parts)
+            nchunks = len(m)
+        else:
+            raise ValueError(c["via"])
+    except ValueError:
+        raise
+    except Exception as e:  # the model has no error path here
+        ctx.mismatch("send / split raised", c, repr(e)[:200], "no error")
+        return
+    ctx.count("more:%s:%s:%s" % (more, how, c["via"]))
+    if raised:
+        ctx.count("more-chunks:rejected")
+        ctx.last_more_chunks = 0
+        return
+    ctx.count("more-chunks:%s:%s" % (more, nchunks if nchunks < 4 else "4+"))
+    ctx.last_more_chunks = nchunks
+    if c["via"] == "split" and c["n"] % 3 != 0:
+        # a chunk size the caller chose that is no multiple of 3: every chunk is padded base64 on its own (whether a reader
+        # accepts padding inside a transfer is the caller's business, and C05's for the sizes send() picks)
+        r = _read_back(d, stream, tok, data, more)
+        ctx.count("more-judged-by:join-rule-over-Spec.parse")
+    else:
+        r = d.ask(f"spec_checksend 0 {NO_LIMIT} 0 {hx(stream)} {tok}")
+        ctx.count("more-judged-by:Spec.checkSend")
+    if r != "ok":
+        flags = d.ask(f"spec_splitstream {hx(stream)}")
+        esc = [] if flags in ("none", "empty", "bad") else [bytes.fromhex(x) for x in flags.split(" ")]
+        ctx.violation("the escapes written for one inline transmission do not read back as ONE transmission with the fields that were "
+                      "set and the exact payload: " + r, c,
+                      {"reason": r, "escapes": len(esc), "heads": [e[:e.find(b";") if b";" in e else 40][:60].decode("latin1") for e in esc[:6]],
+                       "payload_len": len(data), "more": more},
+                      key="c06-chunked-" + r)
+
+
+def _items(s):
+    return [] if s == "-" else [tuple(kv.split(":")) for kv in s.split(",")]
+
+
+def _read_back(d, stream: bytes, tok: str, data: bytes, more):
+    """The protocol's joining rule on top of Spec.GfxParse.parse (one escape at a time): a command flagged m=1 is continued by
+    the commands after it up to the first one not flagged m=1."""
+    M = str(ord("m"))
+    r = d.ask(f"spec_splitstream {hx(stream)}")
+    if r in ("none", "bad"):
+        return "stream-malformed"
+    if r == "empty":
+        return "nothing-emitted"
+    parsed = []
+    for e in r.split(" "):
+        pr = d.ask(f"spec_parse {e}")
+        if pr in ("none", "bad"):
+            return "chunk-malformed"
+        items, payload = pr.split(" ")
+        items = _items(items)
+        if len(set(k_ for k_, _v in items)) != len(items):
+            return "duplicate-key"
+        parsed.append((dict(items), unhx(payload)))
+    for it, _p in parsed[:-1]:
+        if it.get(M) != hx(b"1"):
+            return "chunk-flags"
+    if parsed[-1][0].get(M, hx(b"0")) != hx(b"1" if more is True else b"0"):
+        return "last-flag"
+    if b"".join(p_ for _it, p_ in parsed) != data:
+        return "payload-mismatch"
+    first = parsed[0][0]
+    want = dict(_items(d.ask(f"spec_fields {tok}")))
+    if {k_: v for k_, v in first.items() if k_ != M} != {k_: v for k_, v in want.items() if k_ != M}:
+        return "first-chunk-fields"
+    for it, _p in parsed[1:]:
+        for k_, v in it.items():
+            if k_ not in (str(ord("i")), str(ord("I")), M) or (k_ != M and first.get(k_) != v):
+                return "continuation-keys"
+    return "ok"
 
 
 def _check_derive(ctx, d, c):
@@ -810,9 +943,62 @@ def rnd_kw(rng, typ, fields=None, nmax=3):
     return {f: kw_value(rng, f, rng.choice(["none", "none", "falsy", "value", "value"])) for f in rng.sample(fields, rng.randrange(1, min(nmax, len(fields)) + 1))}
 
 
+def more_cases(ctx: Ctx):
+    """`more` in {unset, False, True} x how it was set x payloads of 0 / 1 / exactly one chunk / one chunk + 1 / two, three, many
+    chunks x send() under small, medium and the default limit / split() with small and large chunk sizes x header shapes"""
+    rng = ctx.rng
+    quick = ctx.quick
+    pats = ["rand", "x", "esc", "ff", "zero"]
+    tl = len(DEFAULT_TEMPLATE)          # send() budgets with the whole template, '%b' included
+    shapes = [{"image_id": 1, "medium": "DIRECT", "format": "PNG", "quiet": "QUIET_ALWAYS"}, {"image_id": 2**32 - 1}, {},
+              {"image_number": 7, "medium": "DIRECT", "placement": {"virtual": True, "rows": 2, "cols": 3}}]
+    for more in [None, False, True]:
+        for how, first in [("ctor", None), ("attr", None), ("attr", True), ("attr", False), ("clone", None), ("clone", True), ("clone", False)]:
+            if first is not None and first == more:
+                continue
+            for si in range(len(shapes) + (2 if quick else 12)):
+                if si < len(shapes):
+                    f = dict(shapes[si])
+                else:
+                    f = t_desc(rng, [s_ for s_ in t_slots() if rng.random() < rng.choice([0.1, 0.4, 0.8])])["f"]
+                    f["medium"] = rng.choice([None, "DIRECT"])
+                    if f.get("placement") is not None:
+                        f["placement"]["virtual"] = True
+                if how == "ctor" and more is None and rng.random() < 0.5:
+                    f.pop("more", None)                 # not passed at all
+                else:
+                    f["more"] = more
+                hl = len(build({"type": "T", "f": f}).header_to_bytes())
+                base = {"k": "more", "how": how}
+                if how != "ctor":
+                    base["first"] = first
+                # send(): the first accepted limit and above; the default (4096)
+                for mx in [tl + hl + 7, tl + hl + 8, tl + hl + 8 + rng.randrange(1, 40), 256, None]:
+                    mp = ((4096 if mx is None else mx) - tl - hl - 4) // 4 * 3
+                    if mp < 1:
+                        lens = [1]
+                    else:
+                        lens = [0, 1, mp - 1, mp, mp + 1, 2 * mp, 2 * mp + 1, 3 * mp, 3 * mp + 5, 7 * mp + 2]
+                    if quick or mx is None:
+                        lens = [lens[0]] + rng.sample(lens, min(len(lens), 2)) + [rng.choice(lens[-6:])]
+                    for L in sorted(set(x for x in lens if x >= 0)):
+                        yield dict(base, cmd={"type": "T", "f": f, "data": {"len": L, "pat": rng.choice(pats), "seed": rng.randrange(1000)}},
+                                   via="send", max=mx, stream=rng.choice(["bytes", "bytes", "bytesio"]))
+                # split() as a public method
+                for n in [1, 3, rng.choice([2, 4, 30, 77]), 4096]:
+                    lens = [0, 1, n - 1, n, n + 1, 2 * n, 2 * n + 1, 5 * n + 1]
+                    if quick or n == 4096:
+                        lens = rng.sample(lens, 3) + [2 * n + 1]
+                    for L in sorted(set(x for x in lens if x >= 0)):
+                        yield dict(base, cmd={"type": "T", "f": f, "data": {"len": L, "pat": rng.choice(pats), "seed": rng.randrange(1000)}},
+                                   via="split", n=n, stream=rng.choice(["bytes", "bytes", "bytesio"]))
+
+
 def cases2(ctx: Ctx):
     rng = ctx.rng
     quick = ctx.quick
+    # --- the `more` field in its three states through send() / split(), payloads of one and of several chunks
+    yield from more_cases(ctx)
     # --- name payloads x media x limits below / around / above what the name needs, through send() and split()
     for m in enum_names("medium"):
         if m == "DIRECT":
@@ -985,7 +1171,10 @@ def run(ctx: Ctx):
                 "and after edits of the PAYLOAD OBJECT (BytesIO, buffered / unbuffered real file, set_data_from_file handle x "
                 "rewritten / extended / cut / overwritten in the middle / edited through getbuffer() / position moved / replaced by "
                 "another stream, bytes or a file name; the stream also held by a second command), every to_bytes / content_to_bytes / "
-                "get_raw_payload / send judged against the payload held at that moment. "
+                "get_raw_payload / send judged against the payload held at that moment; inline transmissions through send() (first "
+                "accepted limit, small limits, 256, default) and split() with `more` unset / explicitly False / True x set by the "
+                "constructor, by assignment or by clone_with x payloads of 0, 1, one chunk -1/+0/+1, two, three and more chunks: the "
+                "written escapes read back as ONE transmission with the fields that were set and the exact payload. "
                 "distinct = canonical JSON of the case; non-trivial = at least one optional field set or a payload")
     run_corpus(ctx, "C06", check_case)
     for c in itertools.chain(cases2(ctx), cases(ctx)):
